@@ -62,7 +62,7 @@ s = s[:i] + "## 8. Seeded changes and which checks catch them\n\n" + \
     "Produced by fresh sub-agents that saw only the property text (ids `Cxx_mK`: round 1; `Cxx_r2mK`: round 2, where the seeder was also told what round 1 " \
     "had produced and asked for other places and mechanisms - two cooperating sites, multi-step sequences, unusual but legal configurations). " \
     "`seeded/INDEX.md` has the same table; `seeded/<id>/meta.json` the details. Round 2 was first run against the machinery as it stood after round 1: " \
-    "18 of its 60 changes were then missed by the check of their own property (11 of them by every check); each miss led to a new rule or configuration " \
+    "25 of its 60 changes were then not reported by the check of their own property (11 of them by no check at all, 4 only made their check leave its vocabulary); each miss led to a new rule or configuration " \
     "(C01 0-d time; C03 heterogeneous parameters; C06 reordered masks and parameter batches; C07 uniform pre-loop draw and NaN-test vocabulary; C08 space-time " \
     "columns and concrete grid tables; C09 constructed generators; C11/C13 per-unknown component selections; C12 stale-shape update and hyper-input order; C15 mixed-shape observed " \
     "parameters and grid per key; C16 the loop's trigger call; C17 active set and sizes per family; C18 merged conditional returns; C20 first-draw end index and weight " \
